@@ -23,7 +23,8 @@ RULE = ("raw inputs assembled from zoo meshes (point clouds, polylines, polygon 
         "switches on/off; non-trivial = at least one declared edge and one invalid element, or a cell mesh; distinct = input hash")
 REQUIRED = {"norm": 3000, "idem": 200, "rows": 100, "corners": 300}
 CASE_TIMEOUT = {"quick": 30.0, "thorough": 600.0}
-ASSUMPTIONS = ["declared edges are pairwise distinct as unordered pairs (the statement does not say what a twice-declared edge becomes)",
+ASSUMPTIONS = ["a construction retried after a rejected first attempt is judged only when the rejected (malformed) edge row was not a side of a face",
+               "declared edges are pairwise distinct as unordered pairs (the statement does not say what a twice-declared edge becomes)",
                "edge order and integer types (int vs numpy.int64) are not compared, only values",
                "2-column vertex arrays are fed through from_arrays only (the documented padding route)"]
 
@@ -179,6 +180,23 @@ def _construct(ctx, inp, desc, irows, tmpdir):
             at = data.edges.create_attribute(a["name"], _pytype(a["type"]), a["size"], dense=a["dense"], **kw)
             for i in a["set"]:
                 at[i] = _payload(a, i)
+        # history: the first construction attempt is rejected because one declared edge row has a typo (a third index); the caller corrects the row
+        # in place and builds again from the same raw container.  Only rows that are not a side of a face / cell are used (for a side, the rejected
+        # attempt has already completed the edge list with it, and what a retry should then do is not stated).
+        if E and desc["seed"] % 4 == 2 and not C:
+            sides = {(min(f[i], f[(i + 1) % len(f)]), max(f[i], f[(i + 1) % len(f)])) for f in F for i in range(len(f))}
+            cand = [j for j, r in enumerate(E) if len(r) == 2 and (min(r), max(r)) not in sides]
+            if cand:
+                j = cand[desc["seed"] % len(cand)]
+                good = data.edges[j]
+                data.edges[j] = tuple(int(x) for x in E[j]) + (int(E[j][-1]),)
+                try:
+                    M.mesh.mesh._instanciate_raw_mesh_data(data)
+                    ctx.note("typo_row_accepted_by_first_construction")
+                except Exception as e:
+                    ctx.cls("history:first_construction_rejected_then_row_corrected")
+                    ctx.note("first_construction_rejected_with_" + type(e).__name__)
+                data.edges[j] = good
         return M.mesh.mesh._instanciate_raw_mesh_data(data), route
     if route == "from_arrays":
         Va = np.array(V, float)
